@@ -55,6 +55,8 @@ let os_pages = ref 0
 let os_cpu = ref 0
 let os_maxnodes = ref 64
 let os_pm_unsupported = ref false
+let os_affproc : bset option ref = ref None
+let nbprocs = ref 16
 let kret name = match Stdlib.Hashtbl.find_opt os_ret name with Some (rc, e) when rc < 0 -> Some (rc, e) | _ -> None
 let kres ?(rc = 0) ?(e = E0) ?(set = { fin = N0; inf = false }) ?(mode = 0) ?(l = []) () =
   { k_rc = z_of_int rc; k_errno = e; k_set = set; k_mode = z_of_int mode; k_list = l }
@@ -200,6 +202,20 @@ let () =
      | ["gamb"; len; f] -> call (A_get_area_membind (nn len, fl f))
      | ["gaml"; len; f] -> call (A_get_area_memlocation (nn len, fl f))
      | ["amb"; len; s; p; f] -> call (A_alloc_membind (nn len, bs s, z p, fl f))
+     | ["os"; "affproc"; s] -> os_affproc := Some (bs s)
+     | ["os"; "loadtrace"; f] ->
+       (* the affinity calls of the x86 backend during a native load over the scripted kernel (every CPU
+          accepted): per visited PU one sched_setaffinity, then the restore of what the thread-level query gave *)
+       let fl = int_of_c f in
+       if fl land 64 <> 0 then Printf.printf "LX\n" else begin
+         let thread = !os_aff and proc = (match !os_affproc with Some p -> p | None -> !os_aff) in
+         let rec nat_of_int i = if i <= 0 then O else S (nat_of_int (i - 1)) in
+         let (final, visited) = x86_look { fin = N0; inf = true } (fl land 16 <> 0 && fl land 2 <> 0) (nat_of_int !nbprocs) thread proc in
+         Printf.printf "LX%s setaffinity(0,%s) final=%s\n"
+           (Stdlib.String.concat "" (Stdlib.List.map (fun i -> Printf.sprintf " setaffinity(0,%s)" (text_of_bset { fin = n_of_bits_lsb_first (Stdlib.List.init (int_of_n i + 1) (fun k -> k = int_of_n i)); inf = false })) visited))
+           (text_of_bset thread) (text_of_bset final)
+       end
+     | ["nbprocs"; n] -> nbprocs := int_of_c n
      | ["thissystem"; nonthis_normal; flag; nonthis_env; env] ->
        (* hwloc_backends_is_thissystem on: a normally given non-thissystem backend?, the flag, an env-forced one?, HWLOC_THISSYSTEM *)
        let bk = (if nonthis_normal = "1" then [{ bk_envvar_forced = false; bk_is_thissystem = Z0 }] else [{ bk_envvar_forced = false; bk_is_thissystem = z_of_int (-1) }])
